@@ -2293,6 +2293,16 @@ void Validator::ValidatorImpl::validateMathMLElementsChildrenAndSiblings(const X
             && isSecondMathmlSibling(parentNode, node, component)
             && hasOneOrTwoMathmlChildren(node, component);
     }
+
+    // The children of the qualifier elements are elements like any other.
+
+    if (node->isMathmlElement("bvar")
+        || node->isMathmlElement("degree")
+        || node->isMathmlElement("logbase")) {
+        for (size_t i = 0, iMax = mathmlChildCount(node); i < iMax; ++i) {
+            validateMathMLElementsChildrenAndSiblings(mathmlChildNode(node, i), component);
+        }
+    }
 }
 
 /**
